@@ -465,9 +465,12 @@ func (e *c20env) entrySequence() {
 
 func (e *c20env) entrySequences(n int) {
 	e.encodeInto = c20EncodeIntoUsable()
+	// a defect of the pinned tree (repaired 7f8be04): a switch, so that it is reported again should it return
+	e.res.Switch("encode_into_unusable", !e.encodeInto, "conversion.EncodeInto(enc, x, typ) passes the reflect.Value it built (not the value in it) to ConvertFrom and to the encoder: "+
+		"EncodeInto(enc, int32(-7), int64) fails with \"Failed to convert struct reflect.Value into int32\", and EncodeInto(enc, struct{X int32}{5}, struct{X int64}) returns nil "+
+		"after writing the bytes of reflect.Value's own fields instead of the 8 bytes of 5")
 	if !e.encodeInto {
-		e.res.Notes = append(e.res.Notes, "conversion.EncodeInto is not exercised: on this tree it is unusable (EncodeInto(enc, int32(-7), int64) does not write the 8 bytes of -7: "+
-			"it passes a reflect.Value where the value is meant); nothing in /repo calls it")
+		e.res.Notes = append(e.res.Notes, "conversion.EncodeInto is not exercised: on this tree it is unusable")
 	}
 	for i := 0; i < n; i++ {
 		e.entrySequence()
